@@ -14,6 +14,16 @@ pub struct Fresh {
     pub data: Vec<u8>,
     pub wc: Vec<u16>,
     pub state: AddrState,
+    /// resolution / gate-count registers after the probe
+    pub geom: Vec<(u8, Option<Vec<u8>>)>,
+}
+
+/// the registers that define the controller's active area (UC / ACeP: TRES 0x61, SSD: driver output
+/// control 0x01); the SSD RAM window and counters are part of the addressing state above
+fn geom_regs(spec: &Spec, c: &Ctrl) -> Vec<(u8, Option<Vec<u8>>)> {
+    let snap = c.reg_snapshot();
+    let ops: &[u8] = if spec.family == Family::Ssd { &[0x01] } else { &[0x61] };
+    ops.iter().map(|o| (*o, snap.get(o).cloned())).collect()
 }
 
 #[derive(Clone, Debug, PartialEq)]
@@ -127,6 +137,17 @@ fn eval(spec: &'static Spec, syms: &[Sym], h: &[usize], probe: K, fresh: &Fresh,
             break;
         }
     }
+    if diff.is_none() {
+        // "shrunken / enlarged-window state": the register that defines the active area must hold what it
+        // holds after the same update on a freshly constructed driver
+        for ((op, now), (_, want)) in geom_regs(spec, b.chip()).iter().zip(fresh.geom.iter()) {
+            if let (Some(n), Some(w)) = (now, want) {
+                if n != w {
+                    return Ok(Some(("active-area-register-differs".into(), vec![format!("reg={:02X}", op)], format!("register {:02X} holds [{}] at the end of the probe, [{}] on a fresh driver", op, hex(n), hex(w)))));
+                }
+            }
+        }
+    }
     match diff {
         None => Ok(None),
         Some(d) => {
@@ -145,7 +166,7 @@ pub fn fresh_for(spec: &'static Spec, probe: K) -> Fresh {
     assert!(o.is_ok(), "fresh probe failed on {}: {:?}", spec.name, o);
     let b = rig.board.borrow();
     let pl = &b.chip().planes[e.plane];
-    Fresh { data: pl.data.clone(), wc: pl.wc.clone(), state }
+    Fresh { data: pl.data.clone(), wc: pl.wc.clone(), state, geom: geom_regs(spec, b.chip()) }
 }
 
 pub fn run(ctx: &Ctx) -> Report {
